@@ -627,7 +627,7 @@ def check_shell(spec):
     return [] if nb == exp else [("nbasis-wrong", f"{nb} != {exp}")]
 
 
-NONDYADIC = [0.1, 0.3, 1.7, 0.9, 1.0 / 3.0]
+NONDYADIC = [0.1, 0.3, 1.7, 0.9, 1.0 / 3.0, 0.9999999, 1.0000001, 1.9999999, 2.0000001, 1e-7, 0.99999]
 
 
 def _search_work(item):
